@@ -260,4 +260,299 @@ theorem mem_sortRank {rank : Name → Nat} {y : Name × Bool} {l : List (Name ×
   | nil => simp [sortRank]
   | cons z r ih => simp [sortRank, mem_insertRank, ih]
 
+
+/-! ### The loop of `_rmtree_safe_fd` -/
+
+theorem run_op {α : Type} (o : Op) (k : Res → Prog α) (fs : FS) :
+    run (.op o k) fs = run (k (apply o fs).1) (apply o fs).2 := rfl
+
+theorem rmLoop_dir (strict : Bool) (recur : Path → Nat → Prog Unit) (p : Path) (n : Name) (rest : List (Name × Bool)) :
+    rmLoop strict recur p ((n, true) :: rest) =
+      Prog.op (.stat (p ++ [n])) fun r =>
+        if r != .yes then (if strict then Prog.raise .fileNotFound else rmLoop strict recur p rest)
+        else Prog.op (.opendir (p ++ [n])) fun r =>
+          match r with
+          | .fd j =>
+            (recur (p ++ [n]) j).bind fun _ =>
+            Prog.op (.rmdir (p ++ [n])) fun r =>
+              if strict && r != .ok then Prog.raise .osError else rmLoop strict recur p rest
+          | _ => if strict then Prog.raise .fileNotFound else rmLoop strict recur p rest := by
+  rw [rmLoop]; rfl
+
+theorem rmLoop_file (strict : Bool) (recur : Path → Nat → Prog Unit) (p : Path) (n : Name) (rest : List (Name × Bool)) :
+    rmLoop strict recur p ((n, false) :: rest) =
+      Prog.op (.unlink (p ++ [n])) fun r =>
+        if strict && r != .ok then Prog.raise .fileNotFound else rmLoop strict recur p rest := by
+  rw [rmLoop]
+
+/-- one iteration of the loop: some monotone change of the state, then the rest of the loop -/
+theorem rmLoop_cons (recur : Path → Nat → Prog Unit) (hrec : ∀ q j, RmProg (recur q j)) (p : Path)
+    (x : Name × Bool) (rest : List (Name × Bool)) (fs : FS) :
+    ∃ fs1, Mono fs fs1 ∧ (Up fs → Up fs1) ∧
+      run (rmLoop false recur p (x :: rest)) fs = run (rmLoop false recur p rest) fs1 := by
+  obtain ⟨n, d⟩ := x
+  cases d with
+  | true =>
+    rw [rmLoop_dir, run_op]
+    by_cases hr : ((apply (.stat (p ++ [n])) fs).1 != Res.yes) = true
+    · simp only [hr, if_true, Bool.false_eq_true, if_false]
+      exact ⟨fs, Mono.refl fs, id, rfl⟩
+    · simp only [hr, Bool.false_eq_true, if_false]
+      rw [run_op]
+      have hst : (apply (.stat (p ++ [n])) fs).2 = fs := rfl
+      rw [hst]
+      have hod : (apply (.opendir (p ++ [n])) fs).2 = fs := opendir_noop _ fs
+      rw [hod]
+      cases (apply (.opendir (p ++ [n])) fs).1 with
+      | fd j =>
+        simp only
+        rw [run_bind]
+        obtain ⟨a, ha⟩ := rmProg_ok (hrec (p ++ [n]) j) fs
+        rw [ha]
+        simp only
+        rw [run_op]
+        refine ⟨(apply (.rmdir (p ++ [n])) (run (recur (p ++ [n]) j) fs).2).2,
+          (rmProg_mono (hrec _ j) fs).trans (rm_op_mono (Or.inr (Or.inr ⟨_, rfl⟩))),
+          fun hu => rm_op_up (Or.inr (Or.inr ⟨_, rfl⟩)) (rmProg_up (hrec _ j) fs hu), ?_⟩
+        simp
+      | _ => exact ⟨fs, Mono.refl fs, id, by simp⟩
+  | false =>
+    rw [rmLoop_file, run_op]
+    exact ⟨(apply (.unlink (p ++ [n])) fs).2, rm_op_mono (Or.inr (Or.inl ⟨_, rfl⟩)),
+      fun hu => rm_op_up (Or.inr (Or.inl ⟨_, rfl⟩)) hu, by simp⟩
+
+theorem mono_none {fs fs1 : FS} {q : Path} (h : Mono fs fs1) (hq : fs.get q = none) : fs1.get q = none := by
+  rcases h q with h | h
+  · exact h
+  · rw [h, hq]
+
+/-- a listed name that is not a directory is gone after the loop -/
+theorem rmLoop_removes_file (recur : Path → Nat → Prog Unit) (hrec : ∀ q j, RmProg (recur q j)) (p : Path) (n : Name) :
+    ∀ (l : List (Name × Bool)) (fs : FS), (n, false) ∈ l → NotDir fs (p ++ [n]) →
+      (run (rmLoop false recur p l) fs).2.get (p ++ [n]) = none := by
+  intro l
+  induction l with
+  | nil => intro fs h; cases h
+  | cons x rest ih =>
+    intro fs hmem hnd
+    by_cases hx : x = (n, false)
+    · subst hx
+      rw [rmLoop_file, run_op]
+      have hgone : (apply (.unlink (p ++ [n])) fs).2.get (p ++ [n]) = none := by
+        rcases unlink_spec (p ++ [n]) fs with ⟨e, hne⟩ | ⟨_, _, _, _, _, _, hg⟩
+        · rw [e]
+          cases hg : fs.get (p ++ [n]) with
+          | none => rfl
+          | some nd =>
+            cases nd with
+            | dir j => exact absurd hg (hnd j)
+            | file i c => simp [apply, hg] at hne
+        · rw [hg]; unfold getUpd; simp
+      have hk : RmProg ((fun r : Res => if (false && r != Res.ok) = true then (Prog.raise .fileNotFound : Prog Unit)
+          else rmLoop false recur p rest) (apply (.unlink (p ++ [n])) fs).1) := by
+        simpa using rmLoop_rmProg recur hrec p rest
+      exact mono_none (rmProg_mono hk _) hgone
+    · obtain ⟨fs1, hm, _, he⟩ := rmLoop_cons recur hrec p x rest fs
+      rw [he]
+      have hmem' : (n, false) ∈ rest := by
+        rcases List.mem_cons.mp hmem with h | h
+        · exact absurd h.symm hx
+        · exact h
+      refine ih fs1 hmem' fun j hj => ?_
+      rcases hm (p ++ [n]) with h | h
+      · rw [h] at hj; cases hj
+      · rw [h] at hj; exact hnd j hj
+
+/-- the recursive step on a directory `d` removes every file directly inside it -/
+theorem rmSafeFd_removes_file (rank : Name → Nat) (fuel : Nat) (d : Path) (j : Nat) (m : Name) (fs : FS)
+    (hd : fs.get d = some (.dir j)) (hnd : NotDir fs (d ++ [m])) :
+    (run (rmSafeFd rank false (fuel + 1) d j) fs).2.get (d ++ [m]) = none := by
+  unfold rmSafeFd scandir
+  rw [run_op]
+  have hst : (apply (.readdir d j) fs).2 = fs := rfl
+  rw [hst]
+  have hres : (apply (.readdir d j) fs).1 = .names (fs.children d) := by
+    simp [apply, hd]
+  rw [hres]
+  simp only
+  cases hc : fs.get (d ++ [m]) with
+  | none =>
+    exact mono_none (rmProg_mono (rmLoop_rmProg _ (fun q i => rmSafeFd_rmProg rank fuel q i) d _) fs) hc
+  | some nd =>
+    cases nd with
+    | dir i => exact absurd hc (hnd i)
+    | file i c =>
+      have hmem : (m, false) ∈ sortRank rank (fs.children d) := mem_sortRank.mpr (children_complete hc)
+      exact rmLoop_removes_file _ (fun q i => rmSafeFd_rmProg rank fuel q i) d m _ fs hmem hnd
+
+/-- a listed directory `p/n`: after the loop no file `p/n/m` is left -/
+theorem rmLoop_removes_grandchild (rank : Name → Nat) (fuel : Nat) (p : Path) (n m : Name) :
+    ∀ (l : List (Name × Bool)) (fs : FS), Up fs → NotDir fs (p ++ [n] ++ [m]) →
+      ((fs.get (p ++ [n])).isSome = true → (n, true) ∈ l ∧ ∃ j, fs.get (p ++ [n]) = some (.dir j)) →
+      (run (rmLoop false (rmSafeFd rank false (fuel + 1)) p l) fs).2.get (p ++ [n] ++ [m]) = none := by
+  have hrec : ∀ q j, RmProg (rmSafeFd rank false (fuel + 1) q j) := fun q j => rmSafeFd_rmProg rank _ q j
+  have parent_eq : parent (p ++ [n] ++ [m]) = p ++ [n] := by simp [parent]
+  have absent : ∀ fs : FS, Up fs → fs.get (p ++ [n]) = none → fs.get (p ++ [n] ++ [m]) = none := by
+    intro fs hu hn
+    cases hg : fs.get (p ++ [n] ++ [m]) with
+    | none => rfl
+    | some nd =>
+      obtain ⟨j, hj⟩ := hu (p ++ [n] ++ [m]) (by simp) (by rw [hg]; rfl)
+      rw [parent_eq, hn] at hj; cases hj
+  intro l
+  induction l with
+  | nil =>
+    intro fs hu _ hl
+    cases hg : fs.get (p ++ [n]) with
+    | none => exact absent fs hu hg
+    | some nd => have := (hl (by rw [hg]; rfl)).1; cases this
+  | cons x rest ih =>
+    intro fs hu hnd hl
+    by_cases hx : x = (n, true)
+    · subst hx
+      cases hg : fs.get (p ++ [n]) with
+      | none =>
+        exact mono_none (rmProg_mono (rmLoop_rmProg _ hrec p _) fs) (absent fs hu hg)
+      | some nd =>
+        obtain ⟨_, j, hj⟩ := hl (by rw [hg]; rfl)
+        rw [rmLoop_dir, run_op]
+        have hstat : (apply (.stat (p ++ [n])) fs) = (.yes, fs) := by simp [apply, hj]
+        rw [hstat]
+        simp only [bne_self_eq_false, Bool.false_eq_true, if_false]
+        rw [run_op]
+        have hod : (apply (.opendir (p ++ [n])) fs) = (.fd j, fs) := by simp [apply, hj]
+        rw [hod]
+        simp only
+        rw [run_bind]
+        obtain ⟨a, ha⟩ := rmProg_ok (hrec (p ++ [n]) j) fs
+        rw [ha]
+        simp only
+        have hgone := rmSafeFd_removes_file rank fuel (p ++ [n]) j m fs hj hnd
+        have hk : RmProg (Prog.op (.rmdir (p ++ [n])) fun r =>
+            if (false && r != Res.ok) = true then (Prog.raise .osError : Prog Unit)
+            else rmLoop false (rmSafeFd rank false (fuel + 1)) p rest) :=
+          .rmdir _ _ fun r => by simpa using rmLoop_rmProg _ hrec p rest
+        exact mono_none (rmProg_mono hk _) hgone
+    · obtain ⟨fs1, hm, hup, he⟩ := rmLoop_cons _ hrec p x rest fs
+      rw [he]
+      refine ih fs1 (hup hu) (fun j hj => ?_) (fun hs => ?_)
+      · rcases hm (p ++ [n] ++ [m]) with h | h
+        · rw [h] at hj; cases hj
+        · rw [h] at hj; exact hnd j hj
+      · rcases hm (p ++ [n]) with h | h
+        · rw [h] at hs; cases hs
+        · rw [h] at hs ⊢
+          obtain ⟨hmem, hj⟩ := hl hs
+          refine ⟨?_, hj⟩
+          rcases List.mem_cons.mp hmem with e | e
+          · exact absurd e.symm hx
+          · exact e
+
+
+/-! ### `rmtree(<function directory>)` leaves no result file -/
+
+def NoOut (fs : FS) : Prop := ∀ a, fs.get (pOut a) = none
+
+theorem pOut_eq (a : Nat) : pOut a = pFunc ++ [.entry a] ++ [.output] := rfl
+theorem pEntry_eq (a : Nat) : pEntry a = pFunc ++ [.entry a] := rfl
+
+theorem rmtree_func_noOut {π : Par} {s : Bool} (rank : Name → Nat) (fs : FS) (hi : Inv π s fs) :
+    NoOut (run (rmtree rank false pFunc) fs).2 := by
+  intro a
+  have hnd : NotDir fs (pOut a) := fun j hj => hi.typD _ _ hj (out_file a)
+  have absentEntry : fs.get (pEntry a) = none → fs.get (pOut a) = none := by
+    intro hn
+    cases hg : fs.get (pOut a) with
+    | none => rfl
+    | some nd =>
+      obtain ⟨j, hj⟩ := hi.up (pOut a) (by simp [pOut]) (by rw [hg]; rfl)
+      have : parent (pOut a) = pEntry a := by simp [parent, pOut, pEntry]
+      rw [this, hn] at hj; cases hj
+  have keep := rmProg_mono (rmtree_rmProg rank pFunc) fs
+  cases hf : fs.get pFunc with
+  | none =>
+    -- no function directory: no entry, no result
+    have : fs.get (pEntry a) = none := by
+      cases hg : fs.get (pEntry a) with
+      | none => rfl
+      | some nd =>
+        obtain ⟨j, hj⟩ := hi.up (pEntry a) (by simp [pEntry]) (by rw [hg]; rfl)
+        have : parent (pEntry a) = pFunc := by simp [parent, pFunc, pEntry]
+        rw [this, hf] at hj; cases hj
+    exact mono_none keep (absentEntry this)
+  | some nd =>
+    cases nd with
+    | file i c => exact absurd (Or.inr (Or.inr (Or.inr (Or.inl rfl)))) (hi.typF _ _ _ hf)
+    | dir j =>
+      unfold rmtree
+      rw [run_op]
+      have hstat : apply (.stat pFunc) fs = (.yes, fs) := by simp [apply, hf]
+      rw [hstat]
+      simp only [bne_self_eq_false, Bool.false_eq_true, if_false]
+      rw [run_op]
+      have hod : apply (.opendir pFunc) fs = (.fd j, fs) := by simp [apply, hf]
+      rw [hod]
+      simp only
+      rw [run_bind]
+      obtain ⟨u, hu⟩ := rmProg_ok (rmSafeFd_rmProg rank 5 pFunc j) fs
+      rw [hu]
+      simp only
+      have hk : RmProg (Prog.op (.rmdir pFunc) fun r =>
+          if (false && r != Res.ok) = true then (Prog.raise .osError : Prog Unit) else Prog.ret ()) :=
+        .rmdir _ _ fun r => by simpa using RmProg.ret ()
+      refine mono_none (rmProg_mono hk _) ?_
+      -- the listing of the function directory contains the entry directory (if it exists); its listing contains the
+      -- result file (if it exists)
+      show (run (rmSafeFd rank false (4 + 1) pFunc j) fs).2.get (pOut a) = none
+      unfold rmSafeFd scandir
+      rw [run_op]
+      have hrd : apply (.readdir pFunc j) fs = (.names (fs.children pFunc), fs) := by simp [apply, hf]
+      rw [hrd]
+      simp only
+      rw [pOut_eq]
+      refine rmLoop_removes_grandchild rank 3 pFunc (.entry a) .output _ fs hi.up (by rw [← pOut_eq]; exact hnd) ?_
+      intro hs
+      rw [← pEntry_eq] at hs ⊢
+      cases hg : fs.get (pEntry a) with
+      | none => rw [hg] at hs; cases hs
+      | some nd =>
+        cases nd with
+        | file i c => exact absurd (Or.inr (Or.inr (Or.inr (Or.inr ⟨a, rfl⟩)))) (hi.typF _ _ _ hg)
+        | dir j' =>
+          refine ⟨mem_sortRank.mpr ?_, j', rfl⟩
+          have := children_complete (p := pFunc) (n := .entry a) (by rw [← pEntry_eq]; exact hg)
+          simpa [flagOf] using this
+
+/-- without result files, the weak invariant is the strict one -/
+theorem inv_true_of_noOut {π : Par} {s : Bool} {fs : FS} (hi : Inv π s fs) (hn : NoOut fs) : Inv π true fs := by
+  refine ⟨hi.wf, hi.typD, hi.typF, ?_, hi.metaOk, hi.up⟩
+  intro a i d hg
+  rw [hn a] at hg
+  cases hg
+
+/-! ### Strengthening a postcondition by a fact about the solo run (no environment) -/
+
+theorem Sat.solo_post_aux {α : Type} {R : FS → FS → Prop} {G : FS → Op → Prop} {P : FS → Prop} {p : Prog α}
+    {Q : α → FS → Prop} {E : Err → FS → Prop} (F : Outcome α → FS → Prop)
+    (hR : ∀ fs fs', ¬ R fs fs') (h : Sat R G P p Q E) :
+    ∀ (P' : FS → Prop), (∀ fs, P' fs → P fs) → (∀ fs, P' fs → F (run p fs).1 (run p fs).2) →
+      Sat R G P' p (fun a fs => Q a fs ∧ F (.ok a) fs) (fun e fs => E e fs ∧ F (.raised e) fs) := by
+  induction h with
+  | ret hq => intro P' hsub hF; exact .ret fun fs hp => ⟨hq fs (hsub fs hp), hF fs hp⟩
+  | raise he => intro P' hsub hF; exact .raise fun fs hp => ⟨he fs (hsub fs hp), hF fs hp⟩
+  | @op P o k Q E M h1 h2 _ ih =>
+    intro P' hsub hF
+    refine .op (fun r fs' => M r fs' ∧ ∃ fs, P' fs ∧ r = (apply o fs).1 ∧ fs' = (apply o fs).2)
+      (fun fs hp => ⟨(h1 fs (hsub fs hp)).1, (h1 fs (hsub fs hp)).2, fs, hp, rfl, rfl⟩)
+      (fun r fs fs' _ hr => absurd hr (hR _ _)) (fun r => ?_)
+    refine ih r _ (fun fs h => h.1) ?_
+    rintro fs' ⟨_, fs, hp, rfl, rfl⟩
+    exact hF fs hp
+
+theorem Sat.solo_post {α : Type} {R : FS → FS → Prop} {G : FS → Op → Prop} {P : FS → Prop} {p : Prog α}
+    {Q : α → FS → Prop} {E : Err → FS → Prop} (F : Outcome α → FS → Prop)
+    (hR : ∀ fs fs', ¬ R fs fs') (h : Sat R G P p Q E) (hF : ∀ fs, P fs → F (run p fs).1 (run p fs).2) :
+    Sat R G P p (fun a fs => Q a fs ∧ F (.ok a) fs) (fun e fs => E e fs ∧ F (.raised e) fs) :=
+  Sat.solo_post_aux F hR h P (fun _ h => h) hF
+
 end JoblibModel.Store
